@@ -229,7 +229,8 @@ def _meaning(ctx, gen, call, data, env, args, a, z):
             if call == "zone_temp":
                 K = c["value"] + 100
                 D = args["D"]
-                return sym_and(*base, keep_power, c["setting_code"] == 5, K * D - args["j"] * 10 <= D // 2, args["j"] * 10 - K * D <= D // 2)
+                # document: "When set temperature: 0-250, setpoint=(value+100)/10; Other: Keep setting value"
+                return sym_and(*base, keep_power, c["setting_code"] == 5, c["value"] <= 250, K * D - args["j"] * 10 <= D // 2, args["j"] * 10 - K * D <= D // 2)
             if call == "zone_damper":
                 return sym_and(*base, keep_power, c["setting_code"] == 4, c["value"] == args["pct"])
     return False
